@@ -162,6 +162,45 @@ func c20run(r *kernel.Run, seed uint64) {
 			}
 			s.wait()
 		}
+		// another member wrote to the group meanwhile (partitioned), then the logs were merged: the exported logs
+		// then have several heads of different logical times unless the account wrote again after the merge
+		if s.r.Choose(2) == 0 {
+			M, err := s.addNode("M", 8)
+			if err != nil {
+				r.Infra("node: %v", err)
+				return
+			}
+			mmgc, err := M.openGroup(mm)
+			if err != nil {
+				r.Infra("open mm on M: %v", err)
+				return
+			}
+			for i, k := 0, 1+s.r.Choose(4); i < k; i++ {
+				if s.r.Choose(2) == 0 {
+					_, _ = mmgc.MetadataStore().SendAppMetadata(ctx, []byte(fmt.Sprintf("other-meta-%d", i)))
+				} else {
+					_, _ = mmgc.MessageStore().AddMessage(ctx, []byte(fmt.Sprintf("other-msg-%d", i)))
+				}
+				s.wait()
+			}
+			if !s.settle([]*protocoltypes.Group{mm}) {
+				r.Infra("no fixpoint")
+				return
+			}
+			r.Fault("merged_with_another_writer")
+			if mgc.MetadataStore().OpLog().Heads().Len() > 1 || mgc.MessageStore().OpLog().Heads().Len() > 1 {
+				r.Probe("exported_log_has_several_heads")
+			}
+			if s.r.Choose(3) == 0 {
+				_, _ = mgc.MetadataStore().SendAppMetadata(ctx, []byte("after-merge"))
+				s.wait()
+			}
+			// the restored node has no network: the other member goes away
+			s.w.Disconnect(A.nn.Index, M.nn.Index)
+			M.stop()
+			s.w.SetDown(M.nn, true)
+			s.wait()
+		}
 		groups = append(groups, mgc)
 	}
 	s.wait()
@@ -202,7 +241,7 @@ func c20run(r *kernel.Run, seed uint64) {
 	r.Logf("history: account ops=%d, joined group=%v, exported members=%d (entries %d)", nops, mm != nil, len(members), total)
 
 	// mutation of the archive in transit
-	fault := []string{"none", "none", "flip-entry", "flip-heads", "flip-key", "drop-entry", "drop-key", "dup-key", "dup-entry", "reorder", "truncate", "used-store"}[s.r.Choose(12)]
+	fault := []string{"none", "none", "flip-entry", "flip-heads", "flip-key", "drop-entry", "drop-key", "dup-key", "dup-entry", "reorder", "truncate", "used-store", "drop-both-keys"}[s.r.Choose(13)]
 	mutated := archive
 	pickMember := func(prefix string, exact bool) int {
 		var idx []int
@@ -256,6 +295,14 @@ func c20run(r *kernel.Run, seed uint64) {
 	case "drop-key":
 		i := pickMember(keyName, true)
 		ms := append(append([]c20member(nil), members[:i]...), members[i+1:]...)
+		mutated, mustFail = c20write(ms), true
+	case "drop-both-keys":
+		var ms []c20member
+		for _, m := range members {
+			if m.hdr.Name != exportAccountKeyFilename && m.hdr.Name != exportAccountProofKeyFilename {
+				ms = append(ms, m)
+			}
+		}
 		mutated, mustFail = c20write(ms), true
 	case "dup-key":
 		i := pickMember(keyName, true)
